@@ -3,7 +3,7 @@ Spec runtime/Handles.tla; MC: mc/Handles_design*.cfg (+ mc/Handles_implswap.cfg:
 RingMatchesRefs at design level); generation: mc/Handles_gen*.cfg, mc/Handles_sim.cfg;
 replayer harness/handles_replay.cpp (heap-allocated handle variables, hook H1 live-object registry, ASan).
 """
-import json, os, threading
+import json, os, threading, time
 from vlib import Broken, b_json, run_replayer, sh
 
 SLOTS = ["d1", "d2", "m1", "m2", "m3", "p1", "p2", "k1", "k2", "s1", "s2", "t1", "t2"]
@@ -27,6 +27,51 @@ def norm_obs(o):
     return {"Hd": seqs(o["Hd"]), "L": seqs(o["L"]), "D": [seqs(d) for d in seqs(o["D"])], "A": seqs(o["A"])}
 
 
+def replay_chunk(ctx, exe, env, cases, tag, timeout=1500, max_crashes=10):
+    """Like vlib.run_replayer (same harness protocol: `exe in out start`, restart after the behaviour that
+    crashed) but gives up after `max_crashes` crashes: a violation is established by then and every further
+    crash costs a process start and a symbolised sanitizer report."""
+    inp = os.path.join(ctx.tmp, "in-%s.ndjson" % tag)
+    outp = os.path.join(ctx.tmp, "out-%s.ndjson" % tag)
+    with open(inp, "w") as f:
+        for c in cases:
+            f.write(json.dumps(c) + "\n")
+    open(outp, "w").close()
+    start, crashes = 0, []
+    while start < len(cases):
+        rc, out = sh([exe, inp, outp, str(start)], timeout=timeout, env=env)
+        if rc == 0:
+            break
+        last, done = None, -1
+        for line in open(outp):
+            try:
+                rec = json.loads(line)
+            except ValueError:
+                continue
+            if "crash" in rec:
+                last = rec
+            elif "beh" in rec:
+                done = max(done, rec["beh"])
+        if last is None or last.get("beh", -1) < start:
+            last = {"crash": "exit-%d" % rc, "beh": max(done + 1, start), "step": -1}
+        last["log"] = out[-3000:]
+        crashes.append(last)
+        start = last["beh"] + 1
+        lines = [l for l in open(outp) if '"crash"' not in l]
+        open(outp, "w").writelines(lines)
+        if len(crashes) >= max_crashes:
+            break
+    outs = {}
+    for line in open(outp):
+        try:
+            rec = json.loads(line)
+        except ValueError:
+            raise Broken("unparseable replayer output: %r" % line[:200])
+        if "beh" in rec:
+            outs[rec["beh"]] = rec
+    return outs, crashes
+
+
 def parallel_replay(ctx, exe, env, cases, ways):
     """Fan the cases out over `ways` replayer processes; returns (outs by global index, crashes)."""
     n = len(cases)
@@ -37,8 +82,8 @@ def parallel_replay(ctx, exe, env, cases, ways):
 
     def work(w):
         try:
-            e = dict(env)
-            results[w] = run_replayer(ctx, exe, e, [cases[i] for i in chunks[w]], timeout=1500, max_restarts=400)
+            results[w] = replay_chunk(ctx, exe, dict(env), [cases[i] for i in chunks[w]],
+                                      "%d-%d" % (w, int(time.time() * 1e6) % 10 ** 9))
         except Exception as ex:  # noqa
             errors.append(ex)
 
